@@ -250,6 +250,12 @@ def downgrade {α} (w : OWorld α) (h : Nat) : Option (OWorld α × Nat) :=
   if w.unique || !w.ownerAlive h then none else
   some ({ w with weaks := w.weaks ++ [true], arcWeak := w.arcWeak + 1 }, w.weaks.length)
 
+/-- `WeakObservable::clone` (shared.rs, `impl Clone for WeakObservable`): one more weak reference to the state and to
+    the clone counter; possible whether or not an owner still exists -/
+def cloneWeak {α} (w : OWorld α) (k : Nat) : Option (OWorld α × Nat) :=
+  if !(w.weaks.getD k false) then none else
+  some ({ w with weaks := w.weaks ++ [true], arcWeak := w.arcWeak + 1 }, w.weaks.length)
+
 /-- `WeakObservable::upgrade` (shared.rs:447-451): succeeds iff a clone is alive -/
 def upgrade {α} (w : OWorld α) (k : Nat) : Option (OWorld α × Option Nat) :=
   if !(w.weaks.getD k false) then none else
